@@ -537,9 +537,9 @@ WhitenRec(id) ==
     LET sh == ShapeOf(id)  m == sh[1]  n == sh[2]
         s  == Stream(id, 2 * m * n + 1)
         real == Pick(s[Len(s)], 3) = 0
-        A  == GMat(s, 0, m, n, Alpha, real)
+        A  == FullRank(s, 0, m, n, real).A                \* rank(A) = min(m, n) by construction
         C  == XAdd(XMul(XHerm(A), A), IDiag(n, 1))
-        \* eigenvalue 1 of C has multiplicity n - rank(A) >= n - m
+        \* eigenvalue 1 of C has multiplicity n - rank(A) = n - min(m, n): repeated iff n - m >= 2
         degenerate == n - m >= 2
         white == WhitenOutcome(m, n)
     IN  [valid |-> TRUE, kind |-> "whiten", id |-> id, C |-> C, n |-> n, rowsA |-> m,
